@@ -367,6 +367,40 @@ def run(ctx):
     pm = ctx.repo.mod(PARSER)
     fn = pm.func('parse_config_file')
     W = ParserWalk(fn)
+    # Q6c: the syntax of the file.  The documented lists use ',' and ';' as
+    # separators (the parser splits the values on them): none of them may be
+    # a comment prefix or a key/value delimiter of the ConfigParser, else
+    # `a, b ; c, d` is silently cut after the first list
+    cps = [c for c in au.calls(fn) if ast.unparse(c.func).endswith(
+        'ConfigParser')]
+    ctx.anchor(len(cps) == 1, 'ConfigParser(...) in parse_config_file')
+    special = {'comment_prefixes': {'#', ';'}, 'delimiters': {'=', ':'},
+               'inline_comment_prefixes': set()}
+    for k_ in cps[0].keywords:
+        if k_.arg in special:
+            try:
+                v_ = ast.literal_eval(k_.value)
+            except Exception:
+                raise AnalysisError(f'ConfigParser({k_.arg}=...) is not a '
+                                    'literal')
+            special[k_.arg] = {v_} if isinstance(v_, str) else set(v_ or ())
+    seps = set()
+    for c in au.calls(fn):
+        if isinstance(c.func, ast.Attribute) and c.func.attr == 'split' and \
+                len(c.args) == 1 and isinstance(c.args[0], ast.Constant) and \
+                isinstance(c.args[0].value, str):
+            seps.add(c.args[0].value)
+    ctx.anchor(seps >= {',', ';'}, "list separators ',' and ';' in the parser")
+    clash = sorted((special['inline_comment_prefixes'] |
+                    special['delimiters']) & seps)
+    ctx.check('C18.Q6.types', 'list separators are not comment prefixes / '
+              'delimiters of the configuration syntax', not clash,
+              f'{clash} separate(s) list entries in option values and is '
+              'also an inline-comment prefix / delimiter of the '
+              'ConfigParser: a value written with a blank before it '
+              '(`a, b ; c, d`) is cut there, so the documented list-of-lists '
+              'options get other values than through the API',
+              ctx.where(pm, cps[0]))
     # deprecated duplicates of the noise options inside [simulation]
     noise_in_sim = {'min_offset', 'max_offset', 'mean_noise', 'ntype'}
     # Q1
@@ -758,6 +792,33 @@ def run(ctx):
               'a simulation stored in layered mode is silently computed in '
               '3D (the documentation says [simulation] is ignored with '
               '--load)', ctx.where(rm, lg_[0][0] if lg_ else lb[0]))
+    # `layered_opts` is a plain attribute; what the layered kernel needs
+    # (default method, ellipse radius / factor / minor) is filled in by the
+    # `layered` setter (Simulation._set_layered_opts).  The options of the
+    # configuration therefore have to be stored BEFORE `layered` is set
+    from ..core.cfg import CFG as _CFG
+    sm_ = ctx.repo.mod('emg3d/simulations.py')
+    setter_norm = any(
+        'setter' in ' '.join(au.decorator_names(m_)) and au.calls(
+            m_, 'self._set_layered_opts')
+        for m_ in sm_.methods('Simulation', 'layered'))
+    ctx.anchor(setter_norm, 'Simulation.layered setter normalises '
+               'layered_opts')
+    cfg_ = _CFG(rs)
+    for n_, b_ in find('_s_.layered_opts = _x_', lbody):
+        after = [cfg_.node_of(m_) for m_, _b in
+                 find(f'{b_["_s_"]}.layered = __', lbody)]
+        path = cfg_.reachable_between(cfg_.node_of(n_), cfg_.exit,
+                                      avoid=after)
+        ctx.check('C18.Q2.routing', 'cli.run --load: [layered] options '
+                  'normalised', cfg_.exit not in path,
+                  '`layered_opts` of the loaded simulation is stored after '
+                  '/ without setting `layered`: the options reach the '
+                  'layered kernel as written in the configuration file, '
+                  'without the defaults the API fills in (ellipse factor, '
+                  'minor, radius), so the run differs from '
+                  'Simulation(layered=True, layered_opts=...)',
+                  ctx.where(rm, n_))
     lo_ = any(isinstance(x_, ast.Constant) and x_.value == 'layered_opts'
               for st_ in lbody for x_ in ast.walk(st_))
     ctx.check('C18.Q2.routing', 'cli.run --load: [layered] options applied',
